@@ -54,7 +54,11 @@ pub fn run() -> Result<(), String> {
     no(b"PROXY  UNKNOWN\r\n")?;
     no(b"PROXY UNKNOWN \xff\r\n")?;
     no(b"PROXY UNKNOWN ffff:ffff:ffff:ffff:ffff:ffff:ffff:ffff ffff:ffff:ffff:ffff:ffff:ffff:ffff:ffff 65535 655355\r\n")?;
-    if !v1::closed(b"PROXY\rT") || v1::closed(b"PROXY\r") || v1::closed(&[b'a'; 106]) || !v1::closed(&[b'a'; 107]) {
+    let mut late_cr = vec![b'a'; 107];
+    late_cr.push(b'\r');
+    let mut cr_as_107th = vec![b'a'; 106];
+    cr_as_107th.push(b'\r');
+    if !v1::closed(b"PROXY\rT") || v1::closed(b"PROXY\r") || v1::closed(&[b'a'; 106]) || !v1::closed(&[b'a'; 107]) || !v1::closed(&late_cr) || v1::closed(&cr_as_107th) {
         return Err("closed() wrong".into());
     }
 
